@@ -148,6 +148,43 @@ def spec_sbg(c):
     return ks, [[sum(v for k, v in zip(c["keys"], col) if k == kk) for kk in ks] for col in c["cols"]]
 
 
+def monitor_sbg_float(ctx):
+    """float-level label independence of the grouped sums (the exact correspondences are at Z): the sum reported for
+    an element must not depend on where its label sorts.  Witness shape: a stagnant section (lambda = 64/Re ~ 1e9)
+    next to ordinary ones."""
+    from pandapipes.pf.internals_toolbox import _sum_by_group
+    rng = ctx.rng
+    trials = [([1e9, 0.0220566848], [1, 1])]
+    for _ in range(20 if ctx.quick else 400):
+        n = rng.randint(2, 6)
+        vals = [rng.choice([1.0, 1e3, 1e9, 3e-2]) * rng.uniform(0.5, 1.5) for _ in range(n)]
+        trials.append((vals, [1] * n))
+    for vals, secs in trials:
+        n = len(vals)
+        base = list(range(n))
+        perm = list(base)
+        rng.shuffle(perm)
+        if vals == trials[0][0]:
+            perm = base[::-1]
+        out = {}
+        for name, labels in (("a", base), ("b", perm)):
+            keys = np.array([float(l) for l, s in zip(labels, secs) for _ in range(s)])
+            v = np.array([x for x, s in zip(vals, secs) for _ in range(s)], dtype=np.float64)
+            for use_numba in (False,):
+                ks, sums = _sum_by_group(use_numba, keys.copy(), v.copy())
+                out[name] = {labels.index(int(k)): float(x) for k, x in zip(ks, sums)}     # element -> sum
+        ctx.case({"sbg_float": vals, "perm": perm}, perm != base)
+        worst = max(abs(out["a"][e] - out["b"][e]) / max(abs(out["a"][e]), 1e-300) for e in range(n))
+        if worst > 1e-10:
+            e = max(range(n), key=lambda e: abs(out["a"][e] - out["b"][e]) / max(abs(out["a"][e]), 1e-300))
+            ctx.violation({"fn": "_sum_by_group", "cause": "cumsum_cancellation"},
+                          "_sum_by_group_np: the sum of the element with value %r is %r under labels %r and %r under "
+                          "labels %r (relative difference %.2e); values %r"
+                          % (vals[e], out["a"][e], base, out["b"][e], perm, worst, vals),
+                          {"case": {"values": vals, "labels_a": base, "labels_b": perm}, "kind": "sbg_float"})
+            return
+
+
 # ------------------------------------------------------------------------------------------ create_lookups
 def gen_nets(ctx, n, profiles=("water", "gas", "heat"), **kw):
     rng = ctx.rng
@@ -206,13 +243,22 @@ def run(ctx):
                          "heat x label modes contig/shuffled/sparse/large; non-trivial = non-contiguous labels and a "
                          "multi-section pipe. Monitors: non-trivial = relabelling is not the identity / permutation "
                          "moves a row")
+    import time
+    tm = [time.time()]
     proved = ctx.prove("C06")
+    tm.append(time.time())
     corr_sbg(ctx)
     corr_lookups(ctx)
+    tm.append(time.time())
     cx.corr_extract(ctx)
     cx.corr_pit_relabel(ctx)
+    tm.append(time.time())
+    monitor_sbg_float(ctx)
     mon.monitor_t_outlet_witness(ctx)
     mon.monitors(ctx)
+    tm.append(time.time())
+    ctx.extra["timing_s"] = dict(zip(["prove", "corr_sbg_lookups", "corr_extract_pit", "monitors"],
+                                     [round(b - a, 1) for a, b in zip(tm, tm[1:])]))
     if (not proved or ctx.brokens) and not ctx.violations:
         mon.monitors(ctx, widen=True)
 
@@ -220,4 +266,26 @@ def run(ctx):
 def replay(ctx, path):
     obj = json.load(open(path))
     rp = obj.get("replay", {})
-    mon.replay(ctx, rp)
+    if rp.get("kind") == "extract":
+        import random
+        hits = 0
+        for k in range(30):
+            cs = cx.extract_case(random.Random(k), rp["net"]) or []
+            for _, bad, info in cs:
+                if bad:
+                    hits += 1
+                    col, got, exp = bad
+                    ctx.violation({"fn": "extract_branch_results_with_internals", "column": col},
+                                  "res_pipe.%s after extraction is %r; every row's own section value gives %r "
+                                  "(labels %r, sections %r)" % (col, got, exp, info["labels"], info["sections"]),
+                                  {"kind": "extract", "net": rp["net"], "info": info})
+        print("replay extract: %d misplaced columns in 30 re-runs with fresh integer results" % hits)
+    elif "keys" in rp.get("case", rp):
+        rp = {"case": rp.get("case", rp)}
+        out = run_sbg(rp["case"])
+        exp = spec_sbg(rp["case"])
+        print("replay _sum_by_group: observed %r expected %r" % (out, exp))
+        if (list(out[0]), [list(c) for c in out[1]]) != (list(exp[0]), [list(c) for c in exp[1]]):
+            ctx.violation({"fn": "_sum_by_group", "path": sbg_path(rp["case"])}, "per-key sums differ", rp)
+    else:
+        mon.replay(ctx, rp)
